@@ -49,9 +49,8 @@ def handoff_queue_fifo(ctx):
 
 def run(ctx):
     # locals / parameters the rules below refer to by name (a rename makes the analysis 'broken', never a violation)
-    ctx.anchor(ctx.fn1('Oomd::Engine::Engine::removeDropInConfig'), 'n', 'tag')
+    ctx.anchor(ctx.fn1('Oomd::Engine::Engine::removeDropInConfig'), 'tag')
     ctx.anchor(ctx.fn1('Oomd::Engine::Engine::addDropInConfig'), 'tag', 'unit')
-    ctx.anchor(ctx.fn1('Oomd::Engine::Engine::addDropInRuleset'), 'it')
     ctx.anchor(ctx.fn1('Oomd::Engine::Ruleset::mergeWithDropIn'), 'ruleset')
     ctx.anchor(ctx.fn1('Oomd::Config2::compileDropIn'), 'target', 'compiled_drop', 'ret', 'root', 'dropin')
     ctx.anchor(ctx.fn1('Oomd::DropInServiceAdaptor::updateDropIns'), 'unit', 'tag')
@@ -123,7 +122,14 @@ def run(ctx):
         ei = [i for i in rm.calls("erase_if", "std::erase_if") if rm.nodes[i].get("args") and "dropins" in rm.text(rm.nodes[i]["args"][0])]
         ctx.counters["remove_effects"] = len(un) + len(stat) + len(er) + len(ei)
         ctx.floor("remove_effects", 3, "erase / markDropInUntargeted / incrementStat in removeDropInConfig")
-        init, v = local_init(rm, "n")
+        # the local counting the drop-ins erased from this base, whatever it is called
+        cand = [nm_ for nm_ in locals_receiving(rm, r"dropins") if re.search(r"remove_if\(|erase_if\(", Xr(local_init(rm, nm_, must=False)[0]) if local_init(rm, nm_, must=False)[1] else "")
+                and not re.match(r"^std::remove_if\(", Xr(local_init(rm, nm_, must=False)[0]))]
+        if len(cand) != 1:
+            ctx.broken("remove:count-local", "anchor", rm.loc(), "removeDropInConfig keeps the number of erased drop-ins in %d locals %s; the counting rules need exactly one" % (len(cand), cand))
+            return
+        NL = cand[0]
+        init, v = local_init(rm, NL)
         nt = Xr(init) if v else "?"
         if ei and not er:
             # C++20 form: n = std::erase_if(base.dropins, tag predicate)
@@ -145,10 +151,18 @@ def run(ctx):
                 continue
             lp = [l for l in loops(rm) if rm.pos_of(i)[0] in l["body"] and l is not O and l["stmt"] != O["stmt"]]
             hdr = loop_header(rm, lp[0]) if lp else ""
-            m = re.search(r"(\w+) = 0 ; \((\w+) < n\) ; (?:\+\+(\w+)|(\w+)\+\+)", hdr)
+            m = re.search(r"(\w+) = 0 ; \((\w+) < %s\) ; (?:\+\+(\w+)|(\w+)\+\+)" % re.escape(NL), hdr)
             counted = bool(m) and m.group(1) == m.group(2) == (m.group(3) or m.group(4))
+            if not counted:
+                # counting down: k = n; k > 0; --k
+                m = re.search(r"(\w+) = %s ; \((?:(\w+) > 0|0 < (\w+)|(\w+) != 0)\) ; (?:--(\w+)|(\w+)--)" % re.escape(NL), hdr)
+                counted = bool(m) and m.group(1) == (m.group(2) or m.group(3) or m.group(4)) == (m.group(5) or m.group(6))
+                if counted and lp:
+                    # the counter is not changed in the body
+                    counted = not [w_ for w_ in local_writes(rm, m.group(1), must=False) if rm.pos_of(w_) is not None and rm.pos_of(w_)[0] in lp[0]["body"] and
+                                   rm.text(w_) not in ("--" + m.group(1), m.group(1) + "--")]
             if lp and not counted:
-                ctx.broken("remove:untarget-once-per-erased", "anchor", rm.loc(i), "markDropInUntargeted sits in a loop whose header '%s' is not the counted form (k = 0; k < n; ++k)" % hdr)
+                ctx.broken("remove:untarget-once-per-erased", "anchor", rm.loc(i), "markDropInUntargeted sits in a loop whose header '%s' is not the counted form (k = 0; k < n; ++k  or  k = n; k > 0; --k)" % hdr)
             else:
                 ctx.check(counted, "remove:untarget-once-per-erased", "loop-shape",
                           rm.loc(i), "markDropInUntargeted runs once per erased drop-in",
@@ -159,7 +173,7 @@ def run(ctx):
             ctx.check("elem(this->rulesets_).ruleset" in Xr(rm.nodes[i]["recv"]), "remove:untarget-that-base", "provenance", rm.loc(i),
                       "untargets the base that lost the drop-ins", "untargets " + Xr(rm.nodes[i]["recv"])[:80])
         for i in stat:
-            ctx.check(rm.text(rm.nodes[i]["args"][1]) == "-n", "remove:stat-minus-n", "value-shape", rm.loc(i),
+            ctx.check(rm.text(rm.nodes[i]["args"][1]) == "-" + NL, "remove:stat-minus-n", "value-shape", rm.loc(i),
                       "oomd.dropin.added falls by the number erased", "stat changes by " + rm.text(rm.nodes[i]["args"][1]))
         fr = iter_flow(ctx, rm, O, {})
         for i in un + stat + er:
@@ -363,20 +377,5 @@ def run(ctx):
     handoff_queue_fifo(ctx)
 
     # ------------------------------------------------ evaluation order (shared with C02)
-    for q, callee in (("Oomd::Engine::Engine::prerun", "Ruleset::prerun"), ("Oomd::Engine::Engine::runOnce", "Ruleset::runOnce")):
-        f = ctx.fn1(q)
-        outer = loop_over(f, "rulesets_")
-        inner = loop_over(f, "dropins")
-        if len(outer) != 1 or len(inner) != 1:
-            ctx.violation(short(f) + ":loops", "anchor", f.loc(), "expected loops over rulesets_ and dropins")
-            continue
-        O, I = outer[0], inner[0]
-        ctx.check(forward_iteration(f, O) and forward_iteration(f, I) and f.nodes[I["stmt"]]["k"] == "rangefor",
-                  short(f) + ":dropins-front-to-back", "loop-shape", f.loc(I["stmt"]),
-                  "drop-ins are evaluated front (newest) to back", "drop-in iteration is not front to back")
-        base = [i for i in f.calls(callee) if "base.ruleset" in f.text(f.nodes[i].get("recv", -1))]
-        rng = f.nodes[I["stmt"]].get("range", -1)
-        fo = iter_flow(ctx, f, O, {rng: [("set", "dv")]} if rng >= 0 else {})
-        for b_ in base:
-            ctx.check(fo.must(b_, "dv"), short(f) + ":dropins-before-base", "must_precede", f.loc(b_),
-                      "drop-ins run before their base", "base can run before its drop-ins")
+    from .C02 import engine_evaluation_order
+    engine_evaluation_order(ctx)
